@@ -1,6 +1,7 @@
 package main
 
 import (
+	"sync"
 	"bufio"
 	"bytes"
 	"fmt"
@@ -36,6 +37,7 @@ type pipeCase struct {
 	Repo       string // working tree of the repository (the template files are read from it)
 	Templates  bool   // also record what the output templates see of the values they are executed on
 	Reassemble bool   // after everything else: add a nodal load to a slice node through the exported API and assemble again
+	concurrent bool   // set by the concurrent command: leave process-wide settings alone
 	Restage    int    // k > 0: number a second structure made of the sliced bars but the (k-1 mod n)-th (a construction stage)
 }
 
@@ -262,8 +264,10 @@ func runPipe(c pipeCase) (out jPipeOut) {
 	var pre *preprocess.Structure
 	for k := 0; k < c.Repeat; k++ {
 		var jp jPre
-		os.Setenv("VERIF_SLICE_ORDER", c.Order)
-		preprocess.VerifResetSliceOrder()
+		if !c.concurrent {
+			os.Setenv("VERIF_SLICE_ORDER", c.Order)
+			preprocess.VerifResetSliceOrder()
+		}
 		guard(&jp.Panic, func() {
 			pre = preprocess.StructureModel(str, &preprocess.PreprocessOptions{IncludeOwnWeight: c.Weight})
 			jp = dumpPre(pre)
@@ -336,13 +340,17 @@ func runPipe(c pipeCase) (out jPipeOut) {
 		out.MaxError = fs(maxErr)
 		dumpPath := c.ScratchDir + "/solution.dump"
 		os.Remove(dumpPath)
-		os.Setenv("VERIF_DUMP_SOLUTION", dumpPath)
+		if !c.concurrent {
+			os.Setenv("VERIF_DUMP_SOLUTION", dumpPath)
+		}
 		var sol *process.Solution
 		guard(&out.SolvePanic, func() {
 			sol = process.Solve(pre, process.SolveOptions{MaxDisplacementsError: maxErr})
 		})
-		os.Unsetenv("VERIF_DUMP_SOLUTION")
-		out.U = readU(dumpPath)
+		if !c.concurrent {
+			os.Unsetenv("VERIF_DUMP_SOLUTION")
+			out.U = readU(dumpPath)
+		}
 		if out.SolvePanic == "" && sol != nil {
 			guard(&out.SolvePanic, func() {
 				for _, es := range sol.Elements {
@@ -438,3 +446,31 @@ func cmdPipeline() {
 	}
 	writeJSON(outs)
 }
+
+// concurrent: every case in a goroutine of its own, all at the same time (a program that handles several structures
+// at once): what each one yields must be what it yields alone.  No imposed slicing order and no solver observer
+// (both are process-wide settings).
+func cmdConcurrent() {
+	var cases []pipeCase
+	readJSON(&cases)
+	build.ReadBuildInfo()
+	os.Setenv("VERIF_SLICE_ORDER", "")
+	outs := make([]jPipeOut, len(cases))
+	var wg sync.WaitGroup
+	start := make(chan struct{})
+	for i := range cases {
+		wg.Add(1)
+		go func(i int) {
+			defer wg.Done()
+			c := cases[i]
+			c.Order, c.concurrent = "", true
+			<-start
+			outs[i] = runPipe(c)
+		}(i)
+	}
+	close(start)
+	wg.Wait()
+	writeJSON(outs)
+}
+
+func init() { commands["concurrent"] = cmdConcurrent }
